@@ -857,7 +857,28 @@ class Extractor:
             self._assign_pattern(target.value, val)
 
     def st_While(self, s):
-        self.emit(Unmodelled, s, what="While")
+        """`while` at generation level: the body is walked once under a ('while', test) frame; names assigned in
+        the body are loop-carried (opaque inside and after).  Hardware generators that build structures with a
+        while loop (StableSelectingNetwork) stay marked as not fully modelled."""
+        loopid = self.fresh()
+        carried = [n for n in _assigned_names(s.body) if self.lookup(n) is not None and n not in self.module_vars]
+        for n in carried:
+            self.rebind(n, ("loopvar", n, loopid))
+        test = self.ev(s.test)
+        if any(isinstance(n, ast.AugAssign) and _looks_like_domain(n.target) for st in s.body for n in ast.walk(st)):
+            self.emit(Unmodelled, s, what="While")  # hardware emitted inside a while loop: iteration structure unknown
+        self.frames.append(("while", test, loopid))
+        try:
+            try:
+                self.walk_body(s.body)
+            except _ReturnSignal:
+                pass
+        finally:
+            self.frames.pop()
+        for n in carried:
+            self.rebind(n, ("loopvar", n, loopid))
+        if s.orelse:
+            self.walk_body(s.orelse)
 
     def st_Continue(self, s):
         self.emit(Jump, s, kind="continue")
